@@ -846,6 +846,49 @@ func compareChildLean(f *ast.File, consts map[string]int64) string {
 	return c.block(fd.Body.List)
 }
 
+// createLean compiles StatGeneralPack.create(t) to a Lean function  type code ↦ constructor name
+func createLean(f *ast.File, consts map[string]int64) string {
+	var fd *ast.FuncDecl
+	for _, d := range f.Decls {
+		if x, ok := d.(*ast.FuncDecl); ok && x.Name.Name == "create" && x.Recv != nil {
+			fd = x
+		}
+	}
+	if fd == nil {
+		return unknown("StatGeneralPack.create")
+	}
+	ps := paramNames(fd)
+	if len(ps) != 1 {
+		return unknown("create parameters")
+	}
+	c := &cc{}
+	c.leaf = func(e ast.Expr) (string, bool) {
+		switch x := e.(type) {
+		case *ast.Ident:
+			if x.Name == ps[0] {
+				return "t", true
+			}
+			if v, ok := consts[x.Name]; ok {
+				return strconv.FormatInt(v, 10), true
+			}
+		case *ast.SelectorExpr:
+			if id, ok := x.X.(*ast.Ident); ok && id.Name == "list" {
+				if v, ok := consts[x.Sel.Name]; ok {
+					return strconv.FormatInt(v, 10), true
+				}
+			}
+		case *ast.CallExpr:
+			if s, ok := x.Fun.(*ast.SelectorExpr); ok && len(x.Args) == 0 {
+				if id, ok := s.X.(*ast.Ident); ok && id.Name == "list" {
+					return strconv.Quote(s.Sel.Name), true
+				}
+			}
+		}
+		return "", false
+	}
+	return c.block(fd.Body.List)
+}
+
 func main() {
 	repo := flag.String("repo", "/repo", "repository root")
 	out := flag.String("out", "", "output Lean file")
@@ -928,6 +971,7 @@ func main() {
 	}
 	pf := parse(filepath.Join(*repo, "lang", "pack", "StatGeneralPack.go"))
 	fmt.Fprintf(&sb, "def create : List (Nat × String) := %s\n", createFacts(pf, consts))
+	fmt.Fprintf(&sb, "def createF (t : Nat) : String :=\n  %s\n", createLean(pf, consts))
 	sb.WriteString("\nend Gen.C13\n")
 	if *out == "" {
 		fmt.Print(sb.String())
